@@ -167,6 +167,8 @@ def _freq(case):
         for i, t in enumerate(trees):
             sd.count_splits_on_tree(t)
             exp = Q.expected_frequencies(split_sets[: i + 1], ws[: i + 1], u)
+            if any(v is None for v in exp.values()):
+                continue  # total weight zero so far: the fraction is undefined (left out, see docstring)
             _check_dist(sd, bits, L, r, exp, fails, tag="after %d trees: " % (i + 1))
         return fails
     exp = Q.expected_frequencies(split_sets, ws, u)
@@ -588,6 +590,10 @@ def _weights_for(i, k):
         [0.5 if j == k - 1 else 2 for j in range(k)],
         [None if j % 2 else 0.5 for j in range(k)],
     ]
+    if k >= 2:
+        # a tree of weight exactly 0 (int / float) next to positive ones: it counts for nothing
+        pats.append([0 if j == 0 else 1 for j in range(k)])
+        pats.append([0.0 if j == k - 1 else 2 for j in range(k)])
     return pats[i % len(pats)]
 
 
@@ -630,7 +636,7 @@ def gen_random(rng, count, scope, nmin=5, nmax=7, kmin=2, kmax=5, p_unif=0.0, re
         base = [K.random_spec(rng, live, p_poly=rng.choice([0.0, 0.2, 0.5]), p_unif=p_unif, unif_min_depth=md) for _ in range(rng.randint(1, 3))]
         trees = [rng.choice(base) if rng.random() < 0.7 else K.random_spec(rng, live, p_poly=0.2, p_unif=p_unif, unif_min_depth=md) for _ in range(k)]
         yield dict(scope=scope, labels=labels, removed=rem, trees=trees, rooted=rooted,
-                   weights=_weights_for(rng.randrange(5), k), i=i, all_routes=all_routes)
+                   weights=_weights_for(rng.randrange(7), k), i=i, all_routes=all_routes)
 
 
 def _ultrametric(rng, labels):
@@ -682,7 +688,7 @@ def gen_lengths(rng, count, scope, ultrametric=False):
                 # root-to-tip distances are defined for them
                 tg = [K.deroot(tg[0]), tg[1], K.deroot(tg[2])]
             targets = tg
-        yield dict(scope=scope, labels=labels, trees=trees, rooted=rooted, weights=_weights_for(rng.randrange(5), k), i=i,
+        yield dict(scope=scope, labels=labels, trees=trees, rooted=rooted, weights=_weights_for(rng.randrange(7), k), i=i,
                    targets=targets, ultrametric=ultrametric)
 
 
